@@ -2,6 +2,7 @@ package main
 
 import (
 	"fmt"
+	"sort"
 	"math"
 	"strconv"
 	"strings"
@@ -14,7 +15,17 @@ func init() {
 	h.Register(&h.Prop{ID: "C11", Gen: genC11, Impl: implC11})
 }
 
-var reviverSrc = []string{}
+// The reviver family (the Lean driver holds the same table, Driver.reviverFn).  Each is built by a
+// factory that receives the array the keys of the calls are logged to.
+var reviverSrc = []string{
+	`(function(log){return function(k,v){log.push(k);return v}})`,
+	`(function(log){return function(k,v){log.push(k);return k==="a"?undefined:v}})`,
+	`(function(log){return function(k,v){log.push(k);return typeof v==="number"?undefined:v}})`,
+	`(function(log){return function(k,v){log.push(k);return typeof v==="string"?k:v}})`,
+	`(function(log){return function(k,v){log.push(k);return typeof v==="boolean"?null:v}})`,
+	`(function(log){return function(k,v){log.push(k);return (k!==""&&typeof v==="object")?"o":v}})`,
+	`(function(log){return function(k,v){log.push(k);return (k==="b"||k==="1")?undefined:v}})`,
+}
 
 func implC11(line string) string {
 	f := strings.Fields(line)
@@ -22,6 +33,10 @@ func implC11(line string) string {
 	defer vmPool.Put(b)
 	switch f[0] {
 	case "parse":
+		if len(f) == 3 {
+			n, _ := strconv.Atoi(f[2][1:])
+			return implRevive(b, f[1], n)
+		}
 		return implParse(b, f[1])
 	case "str":
 		return implStr(b, f[1], f[2], f[3])
@@ -63,6 +78,58 @@ func implParse(b *vmBox, tt string) string {
 }
 
 func nodeOfTokSorted(b *vmBox, text otto.Value, sb *strings.Builder) {}
+
+// implRevive runs JSON.parse(text, reviver) with a logging reviver.  One run when no parsed object
+// has two or more properties; otherwise 200 runs: "nondet" if the outcomes differ beyond key order
+// (keys sorted, log sorted), "unord:<canonical>" if they differ in order only.
+func implRevive(b *vmBox, tt string, id int) string {
+	text := strVal(unitsOf(strings.TrimPrefix(tt, "t:")))
+	plain, err := b.parse.Call(otto.UndefinedValue(), text)
+	if err != nil {
+		return errTok(err)
+	}
+	multi := nodeOf(plain).multiKey()
+	raws, canons := map[string]bool{}, map[string]bool{}
+	lastRaw, lastCanon := "", ""
+	runs := 1
+	if multi {
+		runs = 200
+	}
+	for run := 0; run < runs; run++ {
+		logObj, err := b.vm.Object(`[]`)
+		if err != nil {
+			panic(err)
+		}
+		rv, err := b.reviver[id].Call(otto.UndefinedValue(), logObj.Value())
+		if err != nil {
+			panic(err)
+		}
+		v, err := b.parse.Call(otto.UndefinedValue(), text, rv)
+		if err != nil {
+			return errTok(err)
+		}
+		ln := nodeOf(logObj.Value())
+		var keys []string
+		for _, e := range ln.arr {
+			keys = append(keys, "k"+unitsHex(e.str))
+		}
+		n := nodeOf(v)
+		var a, c strings.Builder
+		n.tok(false, &a)
+		n.tok(true, &c)
+		lastRaw = a.String() + "|" + strings.Join(keys, ",")
+		sort.Strings(keys)
+		lastCanon = c.String() + "|" + strings.Join(keys, ",")
+		raws[lastRaw], canons[lastCanon] = true, true
+		if len(canons) > 1 {
+			return "nondet"
+		}
+	}
+	if len(raws) > 1 {
+		return "unord:" + lastCanon
+	}
+	return "det:" + lastRaw
+}
 
 func implStr(b *vmBox, vt, rt, st string) string {
 	args := []interface{}{buildValue(b, vt)}
@@ -125,8 +192,9 @@ func implStr(b *vmBox, vt, rt, st string) string {
 // ---------------------------------------------------------------- generators
 
 type gen struct {
-	r  *h.Rng
-	bd []float64
+	r     *h.Rng
+	bd    []float64
+	clean bool // no unpaired surrogates, no out-of-range number literals
 }
 
 var keyPool = [][]uint16{
@@ -153,7 +221,7 @@ func (g *gen) unit() []uint16 {
 	case 10, 11:
 		return []uint16{uint16(0xd800 + r.Intn(0x400)), uint16(0xdc00 + r.Intn(0x400))}
 	case 12:
-		if r.Chance(30) {
+		if r.Chance(30) && !g.clean {
 			return []uint16{uint16(0xd800 + r.Intn(0x800))}
 		}
 		return []uint16{'x'}
@@ -200,7 +268,11 @@ var numLits = []string{"0", "-0", "1", "-1", "10", "0.5", "-0.0", "1e2", "1E2", 
 func (g *gen) numLit() string {
 	r := g.r
 	if r.Chance(40) {
-		return numLits[r.Intn(len(numLits))]
+		l := numLits[r.Intn(len(numLits))]
+		if _, err := strconv.ParseFloat(l, 64); err != nil && g.clean {
+			return "1"
+		}
+		return l
 	}
 	f := g.double()
 	if math.IsNaN(f) || math.IsInf(f, 0) {
@@ -250,7 +322,7 @@ func (g *gen) strLit(u []uint16) []uint16 {
 		mustEsc := c < 0x20 || c == '"' || c == '\\'
 		if e, ok := simple[c]; ok && (mustEsc && r.Chance(70) || !mustEsc && r.Chance(30)) {
 			out = append(out, '\\', uint16(e))
-		} else if mustEsc || r.Chance(15) {
+		} else if mustEsc || (r.Chance(15) && !(g.clean && c >= 0xd800 && c < 0xe000)) {
 			f := "\\u%04x"
 			if r.Bool() {
 				f = "\\u%04X"
@@ -306,7 +378,7 @@ func (g *gen) jsonText(depth int) []uint16 {
 			}
 			out = append(out, g.ws()...)
 			key := keyPool[r.Intn(len(keyPool))]
-			if r.Chance(15) {
+			if r.Chance(15) && !g.clean {
 				key = g.str()
 			}
 			out = append(out, g.strLit(key)...)
@@ -529,6 +601,15 @@ func genC11(c *h.Ctx) {
 			}
 			c.Add("parse "+tt(m), "parse:mutated")
 		}
+	}
+	gc := &gen{r: c.Rng, bd: g.bd, clean: true}
+	for _, s := range []string{`{"a":1,"b":2,"c":3}`, `{"a":1,"b":2}`, `[1,2,3]`, `{"a":[1,"x",true],"b":{"c":3}}`, `{"c":1,"a":2,"b":3,"z":4}`, `[{"a":1,"b":2,"1":3}]`, `{"a":{"a":1,"b":"s","c":null}}`, `1`, `"s"`, `null`, `[]`, `{}`, `{"a":1,"a":2,"b":3}`, `[[1,[2]],{"x":[]}]`} {
+		for id := range reviverSrc {
+			c.Add(fmt.Sprintf("parse %s v%d", tt(goUnits(s)), id), "revive:fixed")
+		}
+	}
+	for i := 0; i < c.N(2500, 120000); i++ {
+		c.Add(fmt.Sprintf("parse %s v%d", tt(gc.jsonText(3)), c.Rng.Intn(len(reviverSrc))), "revive:random")
 	}
 	// every single code unit class inside a string, raw and escaped
 	for _, u := range []uint16{0, 1, 8, 9, 10, 12, 13, 0x1f, 0x20, '"', '\\', '/', 0x7f, 0x80, 0xa0, 0xff, 0x2028, 0x2029, 0xd7ff, 0xd800, 0xdbff, 0xdc00, 0xdfff, 0xe000, 0xfeff, 0xfffd, 0xfffe, 0xffff} {
